@@ -58,6 +58,22 @@ def families(tier):
                 out.append(dict(prop='C08', family='c08.' + ('forwarded' if edges else 'plain'), id=f'c08/{sname}-{awaiter}-{down}-{child}-f{int(fwd_first)}-o{"".join(order)}',
                                 cfg=cfg, params=dict(shape=sname, awaiter=awaiter),
                                 scn=dict(buses={b: {} for b in names}, order=order, handlers=hs, main=main, actors=[], forwards=edges, fwd_first=fwd_first, settle=3.0)))
+    # a parent handler that times out AFTER a child of it was already observed complete (with ok / error / cancelled results)
+    for cshape, tp, tc, how, sib in itertools.product(['raise', 'ret', 'pause_raise', 'two_handlers'], (0.5, 1.0), (None, 0.5), ['await', 'ff_then_wait'], (False, True)):
+        if not deep and tc is not None and cshape in ('ret',):
+            continue
+        copt = {} if tc is None else {'timeout': tc}
+        hc = {'raise': [('raise', 'ValueError')], 'ret': [('ret', 1)], 'pause_raise': [('pause',), ('raise', 'Custom')], 'two_handlers': [('raise', 'KeyError')]}[cshape]
+        hp = ([('disp', 'A', 'C', 'await', copt)] if how == 'await' else [('disp', 'A', 'C', 'ff', copt), ('pause',)]) + [('pause',), ('pause',)]
+        hs = [dict(bus='A', pat='P', name='hp', prog=hp), dict(bus='A', pat='C', name='hc', prog=hc), dict(bus='A', pat='X', name='hx', prog=[('ret', 0)])]
+        if cshape == 'two_handlers':
+            hs.append(dict(bus='A', pat='C', name='hc2', prog=[('pause',), ('ret', 2)]))
+        if sib:
+            hs.append(dict(bus='A', pat='P', name='hp2', prog=[('ret', 3)]))
+        main = [('disp', 'A', 'P', 'ff', {'timeout': tp}), ('disp', 'A', 'X', 'ff'), ('pause',)]
+        out.append(dict(prop='C08', family='c08.timeout_after_completion', id=f'c08/tmo-{cshape}-p{tp}-c{tc}-{how}-s{int(sib)}', cfg=dict(cfg, window=1.2, max_targets=3),
+                        params=dict(shape='timeout', awaiter='handler'),
+                        scn=dict(buses={'A': {}}, order=['A'], handlers=hs, main=main, actors=[], forwards=[], settle=3.0)))
     return out
 
 
